@@ -113,6 +113,7 @@ type caseSpec struct {
 	RestartK int // blocks delivered before the restart
 	Zone     int // seconds east of UTC for the other-zone node
 	Clocks   []int64
+	Reset    *resetSpec // chain-reset scenario (nil: not run)
 
 	byAddr map[common.Address]int
 }
@@ -161,6 +162,9 @@ func (s *caseSpec) describe() string {
 		fmt.Fprintf(&b, "  msg%d id%d type=%d payload=%x%s\n", i, m.From, m.Type, m.Payload, dup)
 	}
 	fmt.Fprintf(&b, "  order1=%v split1=%v order2=%v split2=%v restartAfterBlocks=%d zone=%+ds\n", s.Order1, s.Split1, s.Order2, s.Split2, s.RestartK, s.Zone)
+	if s.Reset != nil {
+		fmt.Fprintf(&b, "  reset scenario: %s\n", s.Reset)
+	}
 	return b.String()
 }
 
